@@ -1417,4 +1417,313 @@ theorem Agree_handleUnsubscribe {s : NodeSt} (h : s.Agree) (sid : Nat) (space : 
         exact key st hst hs tag
       · simp [hs] at hsid
 
+/-! ### `handleSubscribe` -/
+
+/-- the patterns the accept loop adds to the trie, as one fold -/
+def Trie.addAll (t : Trie) (ps : List String) : Trie := ps.foldl (fun t p => (t.add p).1) t
+
+theorem Trie.Reachable.addAll {t : Trie} (h : t.Reachable) (ps : List String) : (t.addAll ps).Reachable := by
+  induction ps generalizing t with
+  | nil => exact h
+  | cons p rest ih => exact ih (Trie.Reachable.add p h)
+
+theorem Trie.count_addAll (t : Trie) (ps : List String) (q : String) :
+    (t.addAll ps).count q = t.count q + ps.count q := by
+  induction ps generalizing t with
+  | nil => simp [Trie.addAll]
+  | cons p rest ih =>
+    simp only [Trie.addAll, List.foldl_cons] at ih ⊢
+    rw [ih, Trie.count_add, List.count_cons]
+    by_cases h : q = p
+    · subst h; simp; omega
+    · have : ¬ p = q := fun hh => h hh.symm
+      simp [h, this]
+
+/-- the accept loop appends a duplicate-free list of new patterns (none of them present before, all
+taken from the frame) to the record and adds exactly those to the trie -/
+theorem acceptLoop_spec (cS cT : Nat) (topics pats : List String) (total : Nat) (t : Trie) (acc : List String) :
+    ∃ new rej, acceptLoop cS cT topics pats total t acc =
+        (pats ++ new, total + new.length, t.addAll new, acc ++ new, rej) ∧
+      new.Nodup ∧ ∀ q, q ∈ new → q ∉ pats ∧ q ∈ topics := by
+  induction topics generalizing pats total t acc with
+  | nil => exact ⟨[], [], by simp [acceptLoop, Trie.addAll], by simp, by simp⟩
+  | cons p rest ih =>
+    simp only [acceptLoop]
+    by_cases hc : pats.contains p = true
+    · simp only [hc, if_true]
+      obtain ⟨new, rej, he, hn, hd⟩ := ih pats total t acc
+      exact ⟨new, rej, he, hn, fun q hq => ⟨(hd q hq).1, List.mem_cons_of_mem _ (hd q hq).2⟩⟩
+    · simp only [hc, Bool.false_eq_true, if_false]
+      by_cases hcap : pats.length ≥ cS ∨ total ≥ cT
+      · simp only [hcap, if_true]
+        exact ⟨[], p :: rest, by simp [Trie.addAll], by simp, by simp⟩
+      · simp only [hcap, if_false]
+        obtain ⟨new, rej, he, hn, hd⟩ := ih (pats ++ [p]) (total + 1) (t.add p).1 (acc ++ [p])
+        have hp : p ∉ pats := by simpa using hc
+        refine ⟨p :: new, rej, ?_, ?_, ?_⟩
+        · rw [he]
+          simp only [List.append_assoc, List.singleton_append, List.length_cons, Trie.addAll, List.foldl_cons]
+          have : total + 1 + new.length = total + (new.length + 1) := by omega
+          rw [this]
+        · refine List.nodup_cons.mpr ⟨fun hin => ?_, hn⟩
+          exact (hd p hin).1 (by simp)
+        · intro q hq
+          rcases List.mem_cons.mp hq with rfl | hq
+          · exact ⟨hp, List.mem_cons_self⟩
+          · exact ⟨fun hin => (hd q hq).1 (by simp [hin]), List.mem_cons_of_mem _ (hd q hq).2⟩
+
+theorem mem_addTagsFold (tags init : List String) (x : String) :
+    x ∈ tags.foldl (fun acc t => if acc.contains t then acc else acc ++ [t]) init ↔ x ∈ init ∨ x ∈ tags := by
+  induction tags generalizing init with
+  | nil => simp
+  | cons t rest ih =>
+    simp only [List.foldl_cons, ih, List.mem_cons]
+    by_cases hc : init.contains t = true
+    · simp only [hc, if_true]
+      have : t ∈ init := by simpa using hc
+      constructor
+      · rintro (h | h); exact Or.inl h; exact Or.inr (Or.inr h)
+      · rintro (h | h | h); exact Or.inl h; exact Or.inl (h ▸ this); exact Or.inr h
+    · simp only [hc, Bool.false_eq_true, if_false, List.mem_append, List.mem_singleton]
+      constructor
+      · rintro ((h | h) | h); exact Or.inl h; exact Or.inr (Or.inl h); exact Or.inr (Or.inr h)
+      · rintro (h | h | h); exact Or.inl (Or.inl h); exact Or.inl (Or.inr h); exact Or.inr h
+
+theorem rollback_eq_unsub (space : String) (ps : List String) (r : StreamRec) (t : Trie) (acc : List String) :
+    ps.foldl (NodeSt.rollbackStep space) (r, t) =
+      ((ps.foldl (unsubStep space) (r, t, acc)).1, (ps.foldl (unsubStep space) (r, t, acc)).2.1) := by
+  induction ps generalizing r t acc with
+  | nil => rfl
+  | cons p rest ih =>
+    simp only [List.foldl_cons, NodeSt.rollbackStep, unsubStep]
+    exact ih _ _ _
+
+theorem pruneStream_aset_of_ne (l : List (Nat × StreamRec)) (sid : Nat) (r1 : StreamRec) (h : r1.total ≠ 0) :
+    NodeSt.pruneStream (aset sid r1 l) sid = aset sid r1 l := by
+  simp [NodeSt.pruneStream, alookup_aset_same, h]
+
+theorem pruneSpace_aset_of_ne (rem : List (String × Trie)) (space : String) (t1 : Trie) (h : t1.size ≠ 0) :
+    NodeSt.pruneSpace (aset space t1 rem) space = aset space t1 rem := by
+  simp [NodeSt.pruneSpace, alookup_aset_same, h]
+
+theorem eq_nil_of_forall_not_mem' {α : Type} {l : List α} (h : ∀ x, x ∉ l) : l = [] :=
+  List.eq_nil_iff_forall_not_mem.mpr h
+
+theorem Agree_subscribeCore {s : NodeSt} (h : s.Agree) (sid : Nat) (space : String) (topics : List String)
+    (acct : String) (hv : validSpaceId space = true) :
+    (s.subscribeCore sid space topics acct).1.Agree := by
+  obtain ⟨rec0, hrec0⟩ : ∃ r, r = (alookup sid s.streams).getD ⟨acct, 0, []⟩ := ⟨_, rfl⟩
+  obtain ⟨t, ht⟩ : ∃ t, t = (alookup space s.remote).getD Trie.empty := ⟨_, rfl⟩
+  obtain ⟨new, rej, hacc, hnd, hdis⟩ := acceptLoop_spec s.capSpace s.capStream topics
+      (rec0.pats space) rec0.total t []
+  simp only [NodeSt.subscribeCore, NodeSt.getTrie, ← hrec0, ← ht, hacc, List.nil_append]
+  have hr0 : RecOK0 rec0 := by
+    rw [hrec0]
+    cases ho : alookup sid s.streams with
+    | none => exact ⟨by simp, by simp, by simp⟩
+    | some r => exact (h.recOK sid r ho).toRecOK0
+  have hold : ∀ sp, rec0.pats sp = (alookup sid s.streams).elim [] (fun r0 => r0.pats sp) := by
+    intro sp; rw [hrec0]
+    cases alookup sid s.streams with
+    | none => simp [StreamRec.pats]
+    | some r => simp
+  have hregs : ∀ sp q, q ∈ rec0.pats sp → s.Reg sid sp q := by
+    intro sp q hq
+    rw [hold] at hq
+    cases ho : alookup sid s.streams with
+    | none => simp [ho] at hq
+    | some r => simp only [ho, Option.elim_some] at hq; exact ⟨r, ho, hq⟩
+  have htr : t.Reachable := by
+    rw [ht]
+    cases ho : alookup space s.remote with
+    | none => exact Trie.Reachable.empty
+    | some t0 => exact h.trieReach space t0 ho
+  have htc : ∀ q, t.count q = (alookup space s.remote).elim 0 (fun t => t.count q) := by
+    intro q; rw [ht]
+    cases alookup space s.remote with
+    | none => simp [Trie.count_empty]
+    | some t0 => simp
+  by_cases hnew : new = []
+  · subst hnew
+    simp only [List.isEmpty_nil, if_true, List.append_nil, List.length_nil, Nat.add_zero, Trie.addAll, List.foldl_nil]
+    have hrec2 : (if (rec0.pats space).isEmpty = true then
+          ({ account := rec0.account, total := rec0.total,
+             bySpace := aerase space (aset space (rec0.pats space) rec0.bySpace) } : StreamRec)
+        else { account := rec0.account, total := rec0.total, bySpace := aset space (rec0.pats space) rec0.bySpace }) = rec0 := by
+      cases hb : alookup space rec0.bySpace with
+      | none =>
+        have hp : rec0.pats space = [] := by simp [StreamRec.pats, hb]
+        have habs : space ∉ rec0.bySpace.map Prod.fst := alookup_eq_none_iff.mp hb
+        simp only [hp, List.isEmpty_nil, if_true, aerase_aset_of_absent habs]
+      | some ps =>
+        have hp : rec0.pats space = ps := by simp [StreamRec.pats, hb]
+        have hne : ps ≠ [] := hr0.alookup_ne_nil hb
+        have : ps.isEmpty = false := by cases ps with | nil => exact absurd rfl hne | cons a b => rfl
+        simp only [hp, this, Bool.false_eq_true, if_false, aset_self hb]
+    rw [hrec2, aset_aset]
+    refine Agree_update h sid space rec0 t rfl rfl hr0 htr (fun sp _ => hold sp) ?_ rfl (fun st' hst' _ => hst') ?_
+      (fun _ => hv) ?_
+    · intro q; rw [htc q, ← hold space]
+    · intro st' hst' hsid tag
+      rw [h.tags st' hst' tag]
+      constructor
+      · rintro ⟨sp, q, ⟨r, hl, hq⟩, he⟩
+        refine ⟨sp, q, ?_, he⟩
+        rw [hold, hsid.symm, hl]; exact hq
+      · rintro ⟨sp, q, hq, he⟩
+        exact ⟨sp, q, by rw [hsid]; exact hregs sp q hq, he⟩
+    · rintro ⟨sp, q, hq⟩
+      exact h.inPool sid sp q (hregs sp q hq)
+  · have hne : new.isEmpty = false := by
+      cases new with
+      | nil => exact absurd rfl hnew
+      | cons a b => rfl
+    simp only [hne, Bool.false_eq_true, if_false, NodeSt.addTags, NodeSt.poolStream]
+    obtain ⟨rec1, hrec1⟩ : ∃ r : StreamRec, r = ⟨rec0.account, rec0.total + new.length, aset space (rec0.pats space ++ new) rec0.bySpace⟩ := ⟨_, rfl⟩
+    simp only [← hrec1]
+    have hp1 : ∀ sp, rec1.pats sp = if sp = space then rec0.pats space ++ new else rec0.pats sp := by
+      intro sp; rw [hrec1]; exact pats_aset rec0 space sp _ _
+    have hlenpos : new.length ≥ 1 := by
+      cases new with
+      | nil => exact absurd rfl hnew
+      | cons a b => simp
+    have htot1 : rec1.total ≠ 0 := by rw [hrec1]; simp only; omega
+    have hr1 : RecOK0 rec1 := by
+      rw [hrec1]
+      exact {
+        keys := nodup_aset hr0.keys
+        entries := fun sp ps hm => by
+          rcases (mem_aset hr0.keys).mp hm with ⟨_, rfl⟩ | ⟨hm', _⟩
+          · refine ⟨List.nodup_append.mpr ⟨hr0.pats_nodup space, hnd, ?_⟩, ?_⟩
+            · intro a ha b hb hab; subst hab; exact (hdis a hb).1 ha
+            · intro he
+              have : new = [] := (List.append_eq_nil_iff.mp he).2
+              exact hnew this
+          · exact hr0.entries sp ps hm'
+        total := by
+          have := sum_len_aset space (rec0.pats space ++ new) (l := rec0.bySpace)
+          have ht0 := hr0.total
+          simp only [StreamRec.pats] at this ⊢
+          simp only [List.length_append] at this
+          omega }
+    have htr' : (t.addAll new).Reachable := htr.addAll new
+    have hcnt' : ∀ q, (t.addAll new).count q = t.count q + (if q ∈ new then 1 else 0) := by
+      intro q; rw [Trie.count_addAll, hnd.count]
+    have hsize : (t.addAll new).size ≠ 0 := by
+      intro hz
+      cases hn' : new with
+      | nil => exact hnew hn'
+      | cons a b =>
+        have := (Trie.size_eq_zero_iff htr').mp hz a
+        rw [hcnt' a, hn'] at this
+        simp at this
+    cases hp : s.pool.find? (fun st => st.sid = sid) with
+    | some st0 =>
+      simp only
+      have hst0 : st0 ∈ s.pool ∧ st0.sid = sid := by
+        have h1 := List.mem_of_find?_eq_some hp
+        have h2 := List.find?_some hp
+        exact ⟨h1, by simpa using h2⟩
+      refine Agree_update h sid space rec1 (t.addAll new) (pruneStream_aset_of_ne _ _ _ htot1).symm
+        (pruneSpace_aset_of_ne _ _ _ hsize).symm hr1 htr' ?_ ?_ ?_ ?_ ?_ (fun _ => hv) (fun _ => ⟨st0, hst0⟩)
+      · intro sp hsp; rw [hp1]; simp only [hsp, if_false]; exact hold sp
+      · intro q
+        rw [hcnt' q, htc q, ← hold space, hp1]
+        simp only [if_true, List.mem_append]
+        by_cases h1 : q ∈ rec0.pats space
+        · have h2 : ¬ q ∈ new := fun hq => (hdis q hq).1 h1
+          simp [h1, h2]
+        · by_cases h2 : q ∈ new <;> simp [h1, h2]
+      · simp only [List.map_map]
+        congr 1
+        funext st
+        simp only [Function.comp]
+        split <;> rfl
+      · intro st' hst' hne'
+        simp only [List.mem_map] at hst'
+        obtain ⟨st, hst, rfl⟩ := hst'
+        by_cases hs : st.sid = sid
+        · simp [hs] at hne'
+        · simpa [hs] using hst
+      · intro st' hst' hsid tag
+        simp only [List.mem_map] at hst'
+        obtain ⟨st, hst, rfl⟩ := hst'
+        by_cases hs : st.sid = sid
+        · simp only [hs, if_true, mem_addTagsFold, List.mem_map]
+          rw [h.tags st hst tag]
+          constructor
+          · rintro (⟨sp, q, ⟨r, hl, hq⟩, he⟩ | ⟨q, hq, he⟩)
+            · refine ⟨sp, q, ?_, he⟩
+              have : q ∈ rec0.pats sp := by rw [hold, ← hs, hl]; exact hq
+              rw [hp1]; split
+              · rename_i hsp; subst hsp; exact List.mem_append_left _ this
+              · exact this
+            · exact ⟨space, q, by rw [hp1]; simp [hq], he.symm⟩
+          · rintro ⟨sp, q, hq, he⟩
+            rw [hp1] at hq
+            by_cases hsp : sp = space
+            · subst hsp
+              simp only [if_true, List.mem_append] at hq
+              rcases hq with hq | hq
+              · exact Or.inl ⟨sp, q, by rw [hs]; exact hregs sp q hq, he⟩
+              · exact Or.inr ⟨q, hq, he.symm⟩
+            · simp only [hsp, if_false] at hq
+              exact Or.inl ⟨sp, q, by rw [hs]; exact hregs sp q hq, he⟩
+        · simp [hs] at hsid
+    | none =>
+      simp only
+      have hnopool : ∀ st, st ∈ s.pool → st.sid ≠ sid := by
+        intro st hst heq
+        have := List.find?_eq_none.mp hp st hst
+        simp [heq] at this
+      have hnone : alookup sid s.streams = none := by
+        cases ho : alookup sid s.streams with
+        | none => rfl
+        | some r =>
+          obtain ⟨sp, q, hq⟩ := (h.recOK sid r ho).exists_pat
+          obtain ⟨st, hst, hs⟩ := h.inPool sid sp q ⟨r, ho, hq⟩
+          exact absurd hs (hnopool st hst)
+      have hp0 : ∀ sp, rec0.pats sp = [] := by intro sp; rw [hold, hnone]; rfl
+      rw [rollback_eq_unsub space new rec1 (t.addAll new) []]
+      obtain ⟨R1, R2, R3, R4, R5⟩ := unsubFold_spec space new rec1 (t.addAll new) [] hr1 htr'
+      generalize new.foldl (unsubStep space) (rec1, t.addAll new, []) = res at R1 R2 R3 R4 R5
+      obtain ⟨rec2, t2, removed⟩ := res
+      simp only at R1 R2 R3 R4 R5 ⊢
+      rw [aset_aset, aset_aset]
+      have hp2 : ∀ sp, rec2.pats sp = [] := by
+        intro sp
+        apply eq_nil_of_forall_not_mem'
+        intro q hq
+        obtain ⟨h1, h2⟩ := (R3 sp q).mp hq
+        rw [hp1, hp0] at h1
+        by_cases hsp : sp = space
+        · simp only [hsp, if_true, List.nil_append] at h1
+          exact h2 ⟨hsp, h1⟩
+        · simp [hsp, hp0] at h1
+      refine Agree_update h sid space rec2 t2 rfl rfl R1 R2 ?_ ?_ rfl (fun st' hst' _ => hst') ?_ (fun _ => hv) ?_
+      · intro sp _; rw [hp2, hnone]; rfl
+      · intro q
+        rw [R4 q, hcnt' q, htc q, hp2, hnone, hp1]
+        simp only [if_true, hp0, List.nil_append, Option.elim_none, List.not_mem_nil, if_false, and_self]
+        by_cases h2 : q ∈ new <;> simp [h2]
+      · intro st' hst' hsid
+        exact absurd hsid (hnopool st' hst')
+      · rintro ⟨sp, q, hq⟩; rw [hp2] at hq; cases hq
+
+theorem Agree_handleSubscribe {s : NodeSt} (h : s.Agree) (sid : Nat) (peer ident space : String)
+    (topics : List String) : (s.handleSubscribe sid peer ident space topics).1.Agree := by
+  simp only [NodeSt.handleSubscribe]
+  split
+  · exact h
+  · split
+    · exact h
+    · rename_i hv
+      split
+      · exact h
+      · split
+        · exact h
+        · split
+          · exact h
+          · exact Agree_subscribeCore h sid space topics _ (by simpa using hv)
+
 end AnySync.PubSub
